@@ -251,6 +251,8 @@ class ST:
     def __vc_getitem__(self, I, idx):
         if isinstance(idx, ST) and idx.dtype == "long" and len(idx.shape) > 0:
             return _index_by_tensor(I, self, idx)
+        if isinstance(idx, ST) and idx.dtype == "bool" and len(idx.shape) == len(self.shape):  # t[mask] = t.masked_select(mask)
+            return _masked_select(I, self, idx)
         idx = self._norm_idx(idx)
         # a 0-dim integer tensor used as an index or slice bound stands for its element (torch's __index__)
         sc = lambda v: v.elem() if (isinstance(v, ST) and len(v.shape) == 0) else v
@@ -1343,6 +1345,25 @@ def _max(I, t, dim=None, keepdim=False):
     return ST((), lambda: mx, t.dtype)
 
 METH["masked_fill_"] = _inplace(_masked_fill)
+METH["masked_scatter_"] = _inplace(_masked_scatter)
+
+
+@meth("all")
+def _all(I, t, dim=None, keepdim=False):
+    """all along a dimension of small concrete extent (written out); other forms are not modelled"""
+    if dim is None or keepdim:
+        raise Unsupported("all() without a dimension on a symbolic-shape tensor")
+    d = dim % len(t.shape)
+    if not (isinstance(t.shape[d], int) and 0 <= t.shape[d] <= 8):
+        raise Unsupported("all() along a dimension of symbolic extent")
+    te, ext = t.elem, t.shape[d]
+
+    def el(*idx):
+        parts = [te(*(list(idx[:d]) + [j] + list(idx[d:]))) for j in range(ext)]
+        parts = [z3.BoolVal(x) if isinstance(x, bool) else (x if z3.is_bool(x) else to_z3(x) != 0) for x in parts]
+        return z3.And(parts) if parts else z3.BoolVal(True)
+
+    return ST(t.shape[:d] + t.shape[d + 1:], el, "bool")
 
 
 def f_max(I, a, b=None, **k):
